@@ -123,6 +123,39 @@ def check(pid, tier, seed):
     solve_wall = time.time() - t1
     solver_time = sum(r.get('time', 0) for r in results)
 
+    # known findings at the obligation level: a function with failed obligations and a listed finding is verified
+    # again under the finding's exclusion clause; only if *everything* then discharges are the failures attributed
+    # to the finding (any other violation of the same contract still fails).
+    kf_all = [f for f in known_findings() if f.get('property') == pid]
+    obl_known = []
+    excluded = []
+    pairs = list(zip(v.obligations, results))
+    for key, c in reg.contracts.items():
+        if c.assumed or not c.verify:
+            continue
+        fkey = f'{c.file}:{c.qualname}'
+        mine = [(ob, r) for ob, r in pairs if _fn_match(ob.func, fkey)]
+        if not any(r['status'] == 'failed' for _, r in mine):
+            continue
+        entries = [f for f in kf_all if f.get('assume') and _fn_match(f.get('function', ''), fkey)]
+        if not entries:
+            continue
+        import copy
+        c2 = copy.copy(c)
+        c2.requires = list(c.requires) + [f['assume'] for f in entries]
+        v2 = Verifier(src, reg, pid)
+        rep2 = v2.verify(c2)
+        res2 = discharge(v2.obligations, v2.global_axioms, timeout_ms=timeout_ms, seed=seed)
+        if rep2['status'] == 'ok' and all(r['status'] == 'discharged' for r in res2):
+            pairs = [(ob, r) for ob, r in pairs if not _fn_match(ob.func, fkey)] + list(zip(v2.obligations, res2))
+            obl_known.extend(entries)
+            excluded.append({'function': fkey, 'assumed_away': [f['assume'] for f in entries],
+                             'finding': [f.get('id') for f in entries]})
+            v.assumptions_used.update(v2.assumptions_used)
+    all_obs = [ob for ob, _ in pairs]
+    results = [r for _, r in pairs]
+    v.obligations = all_obs
+    solver_time = sum(r.get('time', 0) for r in results)
     failed = [(ob, r) for ob, r in zip(v.obligations, results) if r['status'] == 'failed']
     unknown = [(ob, r) for ob, r in zip(v.obligations, results) if r['status'] == 'unknown']
     discharged = [r for r in results if r['status'] == 'discharged']
@@ -137,20 +170,21 @@ def check(pid, tier, seed):
     native = run_native(pid, tier, seed)
     nat_fail = native.get('failures', [])
 
-    kf = [f for f in known_findings() if f.get('property') == pid]
+    kf = kf_all
     violations = []
     known_hit = []
 
-    def is_known(fn, witness):
+    def is_known(fn, failure):
+        """a native failure is a known finding only if it matches the *specific* witness of an entry"""
         for f in kf:
-            if f.get('function') and f['function'] not in fn:
+            if f.get('function') and not f.get('match_any_function') and not _fn_match(f['function'], fn):
                 continue
-            if 'witness' in f and f['witness'] != witness:
-                continue
-            if 'witness_key' in f and (not isinstance(witness, dict) or
-                                       any(witness.get(k) != val for k, val in f['witness_key'].items())):
-                continue
-            return f
+            wks = f.get('witness_any') or ([f['witness_key']] if f.get('witness_key') else [])
+            merged = dict(failure.get('case') or {}) if isinstance(failure.get('case'), dict) else {}
+            merged.update({k: v for k, v in failure.items() if k != 'case'})
+            for wk in wks:
+                if all(merged.get(k) == val for k, val in wk.items()):
+                    return f
         return None
 
     os.makedirs(os.path.join(OUT, 'replays', pid), exist_ok=True)
@@ -164,7 +198,7 @@ def check(pid, tier, seed):
     # 1. failing inputs found natively (real code vs contract): always violations unless listed
     seen_fn_fail = set()
     for f in nat_fail:
-        k = is_known(f.get('function', ''), f.get('case'))
+        k = is_known(f.get('function', ''), f)
         if k is not None:
             known_hit.append((k, f))
             continue
@@ -237,7 +271,8 @@ def check(pid, tier, seed):
             'vacuity': {'functions_with_unsat_pre_or_zero_obligations': [r['function'] for r in vacuous],
                         'feasibility_checks': v.feas_checks},
             'native_bounded': {k: native.get(k) for k in ('evaluations', 'functions', 'bounds', 'error', 'distinct')},
-            'known_findings_hit': [k.get('id') for k, _ in known_hit],
+            'known_findings_hit': sorted({k.get('id') for k, _ in known_hit} | {k.get('id') for k in obl_known}),
+            'known_findings_excluded': excluded,
             'samples': samples,
             'explanation': ('every obligation generated from the current source was discharged' if level == 'proof' else
                             'some obligations were not discharged by the deductive back ends; those are decided by a bounded '
@@ -257,7 +292,7 @@ def check(pid, tier, seed):
     for k, f in known_hit[:0]:
         pass
     printed = set()
-    for k, f in known_hit:
+    for k, f in known_hit + [(k, None) for k in obl_known]:
         if k.get('id') in printed:
             continue
         printed.add(k.get('id'))
@@ -272,8 +307,10 @@ def check(pid, tier, seed):
     for ob, r in failed:
         print('  FAILED obligation:', ob.name, '|', ob.detail[:100], '| model:', json.dumps(r.get('model'))[:200])
     if violations:
-        for path, noinput, info in violations:
+        for path, noinput, info in violations[:4]:
             print(f'VIOLATION property={pid} replay={path}' + (' no-failing-input-found' if noinput else ''))
+        if len(violations) > 4:
+            print(f'  ... and {len(violations) - 4} more (see replays/{pid}/)')
         return 1
     if vacuous:
         print('vacuity check failed:', vacuous)
